@@ -85,8 +85,10 @@ ZOO = {
     "TypeError": lambda: TypeError("no-type"),
     "ValueError": lambda: ValueError("no-value", 7),
     "UnicodeDecodeError": _ude,
+    "UnboundLocalError": lambda: UnboundLocalError("unbound"),
     # not caught by a pipe
     "Exception": lambda: Exception("plain", 1),
+    "ImportError": lambda: ImportError("no-module", name="nomod"),
     "ZeroDivisionError": lambda: ZeroDivisionError("div"),
     "RuntimeError": lambda: RuntimeError("rt", "x"),
     "OSError": lambda: OSError(5, "io-msg"),
@@ -114,7 +116,8 @@ ZOO_CLASSES = {
     "KeyError": KeyError, "IndexError": IndexError,
     "LookupError": LookupError, "TypeError": TypeError,
     "ValueError": ValueError, "UnicodeDecodeError": UnicodeDecodeError,
-    "Exception": Exception,
+    "Exception": Exception, "UnboundLocalError": UnboundLocalError,
+    "ImportError": ImportError,
     "ZeroDivisionError": ZeroDivisionError, "RuntimeError": RuntimeError,
     "OSError": OSError, "AssertionError": AssertionError,
     "MemoryError": MemoryError, "StopIteration": StopIteration,
@@ -129,8 +132,8 @@ PIPE_CAUGHT = (AttributeError, NameError, LookupError, TypeError, ValueError)
 EXISTS_CAUGHT = (AttributeError, LookupError, TypeError, NameError)
 CAUGHT_NAMES = ["AttributeError", "NameError", "KeyError", "IndexError",
                 "LookupError", "TypeError", "ValueError",
-                "UnicodeDecodeError", "E4", "E5"]
-UNCAUGHT_NAMES = ["Exception", "ZeroDivisionError", "RuntimeError", "OSError",
+                "UnicodeDecodeError", "E4", "E5", "UnboundLocalError"]
+UNCAUGHT_NAMES = ["Exception", "ImportError", "ZeroDivisionError", "RuntimeError", "OSError",
                   "AssertionError", "MemoryError", "StopIteration", "E1",
                   "E2", "RecursionError", "E3", "E6", "E7", "FileNotFoundError",
                   "SyntaxError"]
